@@ -20,7 +20,27 @@ def _cache_nontrivial(line):
     m = re.match(r"cache (\d+) (\S*) =>", line)
     return bool(m) and m.group(2).count(",") + 1 > int(m.group(1))
 
+def _bbox_nontrivial(line):
+    # at least one non-empty box among the arguments, or an error/overflow outcome
+    if re.search(r"=> (err|panic|overflow)", line): return True
+    for m in re.finditer(r"\b(\d+)/(\d+)/(\d+)/(\d+)/(\d+)\b", line.split(" => ")[0]):
+        z, x0, y0, x1, y1 = map(int, m.groups())
+        if x0 <= x1 and y0 <= y1: return True
+    return False
+
 PROPS = {
+    "C15": {
+        "cmd": "c15",
+        "theorems": ["C15_gen_index_is_64bit", "C15_gen_border_saturates", "C15_empty", "C15_contains", "C15_intersect",
+                     "C15_include_least", "C15_include_coord_least", "C15_overlaps", "C15_count_enumeration", "C15_index_inverse",
+                     "C15_grid_partition", "C15_grid_size0", "C15_flip", "C15_swap", "C15_add_border", "C15_constructors"],
+        "nontrivial": _bbox_nontrivial,
+        "level_text": "Set semantics of TileBBox proved in Coq for every level <= 31 and every u32 field value, both empty encodings and half-empty boxes: emptiness, containment, intersection, least bounding union (box and coordinate), overlap, count = length of the duplicate-free row-major enumeration, index <-> coordinate inverse (any box size), grid split is a partition into aligned non-empty cells without panic/overflow, flip/swap involutions with their images, add_border. The model is tied to the code by running every public TileBBox operation on all boxes (incl. malformed ones) at zoom <= 3, all/sampled pairs, and border-biased samples up to zoom 31, comparing results including error/panic/overflow outcomes; the index and add_border arithmetic variants are regenerated from the source.",
+        "level_note": "Trusted: Coq kernel, hand model coq/Model/BBox.v (u32 as N with explicit overflow outcomes), scraper regexes, extraction + OCaml driver, harness. Geographic conversion (from_geo/as_geo_bbox, IEEE-754 + libm) is covered by Proofs/GeoProofs (exact rational model) and tested, not proved for f64. Print Assumptions: closed under the global context.",
+        "rule": "one line = one TileBBox operation on concrete boxes run on the implementation and on the extracted model; exhaustive over all 5625 boxes (fields 0..max+1) at zoom<=3 for unary ops and all pairs at zoom<=2 (sampled at 3), plus seeded samples to zoom 31 biased to 0/1/255/256/257/max; spec-level brute force over member sets at zoom<=3; distinct = distinct lines; non-trivial = some argument box non-empty or an err/panic/overflow outcome",
+        "partial": "IEEE-754 rounding inside from_geo/as_geo_bbox is tested, not proved; release-profile wrap-around of overflowing u32 arithmetic is not modelled (dev-profile overflow panics are)",
+        "assumptions": ["boxes are observed through the public fields of TileBBox; levels <= 31"],
+    },
     "C20": {
         "cmd": "c20",
         "level_text": "All four clauses are Coq theorems over every capacity and every operation history (induction over the history, no bound): capacity + no duplicate keys, provenance of returned values, get_or_set semantics, and survival of a just-used entry at the next eviction for every capacity >= 2 (capacity 1 is proved impossible for any cache). The model is tied to the code by regenerating the median index from limited_cache.rs and by running >100k histories (exhaustive small scope + random long ones) on LimitedCache and on the extracted model, comparing every returned value, the length and the stamp counter.",
